@@ -1,6 +1,6 @@
 \* job hllunion (C04, C06): sketch-level clauses are C03's (prefix), C09 clauses not enforced here
 SPECIFICATION TUSpec
-CONSTANTS Ids = {} LgKs = {} Coupons = {} Bigs = {} TrackFed = FALSE Strict09 = FALSE SkPrefix = "C03:"
+CONSTANTS Ids = {} LgKs = {} Coupons = {} Bigs = {} TrackFed = FALSE CheckDesign = FALSE Strict09 = FALSE SkPrefix = "C03:"
 INVARIANT TInv
 POSTCONDITION Accepted
 CHECK_DEADLOCK FALSE
